@@ -2,16 +2,10 @@
 pub mod not { use super::*;
     #[verifier::external_body]
     pub fn exec(variable: Variable) -> (r: Variable) ensures r == op_not(variable) { unimplemented!() }
-    pub uninterp spec fn folded(i: Instruction) -> Instruction;
-    #[verifier::external_body]
-    pub fn create_from_instruction(instruction: Instruction) -> (r: Instruction) ensures r == folded(instruction) { unimplemented!() }
 }
 pub mod unary_minus { use super::*;
     #[verifier::external_body]
     pub fn exec(variable: Variable) -> (r: Variable) ensures r == op_unary_minus(variable) { unimplemented!() }
-    pub uninterp spec fn folded(i: Instruction) -> Instruction;
-    #[verifier::external_body]
-    pub fn create_from_instruction(instruction: Instruction) -> (r: Instruction) ensures r == folded(instruction) { unimplemented!() }
 }
 pub mod indirection { use super::*;
     #[verifier::external_body]
